@@ -26,6 +26,13 @@ input and the environments' action logs are all keyed by agent id.
   (provenance text of every field at every position) is diffed with the implementation's.
 
 The single-environment `PettingZooAutoResetParallelWrapper` is checked the same way in-process.
+
+Source translation (`pre_gate`, before the Lean gate): `py2lean_vecenv.py` translates, from the source text of the tree
+under test, the wrapper's `reset` / `step`, `PettingZooVecEnv.step` (de-batching, per-agent int conversion),
+`AsyncPettingZooVecEnv.reset / reset_async / step_async` (seeds, messages), `get_placeholder_value`,
+`process_transition` and the command dispatch + "reset" / "step" branches of `_async_worker` into
+lean/Gen/VecEnvGen.lean; Proofs/VecEnvGenEq.lean proves the generated definitions equal to Model/VecEnv.lean and
+Props/C12.lean restates the theorems over them (`C12_source_translation_*`).
 Every vec env is closed in `finally`; no worker outlives a case.  The public blocking calls are used exactly
 as a caller uses them (no timeouts: a timeout makes the parent poll every pipe in index order first, which
 hides the order in which the workers really finish); a SIGALRM wall-clock guard per case bounds a hang.
@@ -728,6 +735,24 @@ def report_wrapper(chk: Check, case, ops, res):
         d = r2["diff"]
         chk.violation(f"wrapper and model disagree at op {d}: impl={r2['impl'][d:d + 1]} model={r2['model'][d:d + 1]}; "
                       f"the reset-condition oracle holds on this case and its shrinks", replay, no_input=True)
+
+
+# ----------------------------------------------------------------------------- source translation
+REL_SOURCES = ("agilerl/wrappers/pettingzoo_wrappers.py", "agilerl/vector/pz_vec_env.py",
+               "agilerl/vector/pz_async_vec_env.py")
+REL_SOURCE = "agilerl/{wrappers/pettingzoo_wrappers,vector/pz_vec_env,vector/pz_async_vec_env}.py"     # display only
+
+
+def pre_gate(chk: Check) -> None:
+    """Regenerate lean/Gen/VecEnvGen.lean from the source text of the tree under test (before the Lean gate) and
+    re-check `generated = model` (Proofs/VecEnvGenEq.lean) and the theorems over the generated definitions
+    (Props/C12.lean)."""
+    import common
+    import py2lean_vecenv
+    assert tuple(py2lean_vecenv.REL_SOURCES) == REL_SOURCES
+    common.translation_gate(chk, py2lean_vecenv, "Gen/VecEnvGen.lean",
+                            ["Gen.VecEnvGen", "Proofs.VecEnvGenEq", "Props.C12"],
+                            "auto-reset wrapper, action de-batching, seeding, worker step / reset with placeholders")
 
 
 # ----------------------------------------------------------------------------- check
